@@ -66,10 +66,27 @@ Definition retarget (o : op) : op :=
 Definition probed (o : op) : nat :=
   match o with OConvColl b _ _ | OConvRule b _ _ | OInit b _ => b | _ => 0%nat end.
 
+(* convert(collection) from the results of converting every rule on its own (implementation outputs):
+   queries concatenated up to the first raised error, collected errors concatenated, bookkeeping of the
+   last rule that was processed *)
+Fixpoint combine_each (l : list iout) (acc : list str) (errs : list N) (s : option isnap)
+  : outcome (list str) * list N * option isnap :=
+  match l with
+  | [] => (Ok acc, errs, s)
+  | i :: rest =>
+      match io_res i with
+      | Ok q => combine_each rest (acc ++ q) (errs ++ io_errs i) (io_snap i)
+      | e => (e, errs, io_snap i)
+      end
+  end.
+Definition rules_of_probe (o : op) : list op :=
+  match o with OConvColl _ rs f => map (fun r => OConvColl 0 [r] f) rs | _ => [] end.
+
 (* case: (environment, history whose last operation is the probe, implementation outputs per
-   operation, implementation output of the probe in a fresh setup, formats in use) *)
-Definition judge_history (c : env * list op * list iout * option iout * list N) : N :=
-  let '(E, ops, iouts, ifresh, fmts) := c in
+   operation, implementation output of the probe in a fresh setup, implementation outputs of every
+   rule of a probed collection on its own in a fresh setup) *)
+Definition judge_history (c : env * list op * list iout * option iout * list iout) : N :=
+  let '(E, ops, iouts, ifresh, ieach) := c in
   let hist := removelast ops in
   let '(w, outs_h) := run E init hist in
   match last (map Some ops) None with
@@ -81,11 +98,18 @@ Definition judge_history (c : env * list op * list iout * option iout * list N) 
       let cfg := nth (probed probe) (news ops) (0, None) in
       let collect := match nth_error (w_bks w) (probed probe) with Some bk => b_collect bk | None => false end in
       let '(_, out_f) := step E (fst (step E init (ONew (fst cfg) (snd cfg) collect))) (retarget probe) in
-      let agree_fresh := match ifresh with Some i => out_agrees out_f i | None => negb (is_conv probe) end in
+      let w0 := fst (step E init (ONew (fst cfg) (snd cfg) collect)) in
+      let agree_fresh := match ifresh with Some i => out_agrees out_f i | None => negb (is_conv probe) end
+                         && all2 (fun o i => out_agrees (snd (step E w0 o)) i) (rules_of_probe probe) ieach in
       (* the property on the implementation's own outputs: after the history = fresh *)
       let spec := match ifresh, last (map Some iouts) None with
                   | Some f, Some i => obs_eqb (io_res i) (io_errs i) (io_snap i) (io_res f) (io_errs f) (io_snap f)
                                       && io_tpl_ok i
+                                      && match probe, ieach with
+                                         | OConvColl _ (_ :: _) _, _ :: _ =>
+                                             let '(r, e, sn) := combine_each ieach [] [] None in
+                                             obs_eqb (io_res i) (io_errs i) (io_snap i) r e sn
+                                         | _, _ => true end
                   | None, _ => negb (is_conv probe)
                   | _, _ => false end in
       let dom := match probe, nth_error (w_bks w) (probed probe) with
@@ -95,7 +119,7 @@ Definition judge_history (c : env * list op * list iout * option iout * list N) 
   end.
 
 (* replay helper: the model's outputs *)
-Definition model_history (c : env * list op * list iout * option iout * list N) :=
+Definition model_history (c : env * list op * list iout * option iout * list iout) :=
   let '(E, ops, _, _, _) := c in
   map (fun o => (o_res (out_obs o), o_errs (out_obs o), option_map snap_of (o_snap (out_obs o)),
                  (out_hits o, out_miss o, out_hints o, out_tpl_ok o))) (snd (run E init ops)).
